@@ -197,8 +197,8 @@ def handle (e : Sexp) : Sexp :=
     (match decStr sep, decRVal v with
      | some sep, some (.dict kvs) => encExcept (fun r => encRVal (.dict r)) (rollout sep kvs)
      | _, _ => .atom "BADINPUT")
-  | .list [.atom "migrate", .list (.atom "lines" :: ls), .list (.atom "stmts" :: ss)] =>
-    (match ls.mapM decBytes, ss.mapM decStmt with
+  | .list [.atom "migrate", src, .list (.atom "stmts" :: ss)] =>
+    (match decBytes src, ss.mapM decStmt with
      | some ls, some ss =>
        (match Migrate.rewriteImports Gen.Migration.mapping ls ss with
         | some out => .list [.atom "some", encNats "y" out]
